@@ -43,6 +43,15 @@ def byte_stages(with_bitmaps=True):
     return st
 
 
+MIRI_ALL = ["M-x86", "M-avx2", "M-a64", "M-i686", "M-s390x"]
+
+
+def miri_stage(kinds, quick=40, thorough=3000, targets=None):
+    """Generated cases interpreted by Miri for other targets (real NEON intrinsics on aarch64, 32-bit and big-endian SWAR)."""
+    return {"name": "casefile", "kind": "casefile", "configs": cfgs(["N-auto"] + (targets or MIRI_ALL)), "kinds": kinds,
+            "count": {"quick": 0, "thorough": 0}, "miri_count": {"quick": quick, "thorough": thorough}, "miri_per_shard": 20}
+
+
 def iter_stages():
     return [
         {"name": "iter-exh", "cmd": "iter-exh", "configs": cfgs(NATIVE + EMU), "shards": shards(4, 8, 4, 8)},
@@ -87,13 +96,13 @@ PLANS = {
                 "Non-trivial: the first match lies beyond the first vector of the implementation under test, or the haystack is non-empty "
                 "and shorter than one vector, or the match is on the 2nd/3rd needle. Distinct: enumerated cases are distinct by "
                 "construction; generated cases are deduplicated by a hash of (needles, haystack, placement).",
-        "stages": byte_stages(),
+        "stages": byte_stages() + [miri_stage("B", targets=["M-a64", "M-i686", "M-s390x"])],
     },
     "C02": {
         "rule": "as C01 with the END alignment as the enumerated axis (the reverse scan aligns on the end pointer) and rfind/rfind_raw/"
                 "memrchr* judged against the naive last position. Non-trivial: the last match lies before the final vector of the scan, "
                 "or 0 < len < one vector, or the match is on the 2nd/3rd needle.",
-        "stages": byte_stages(),
+        "stages": byte_stages() + [miri_stage("B", targets=["M-a64", "M-i686", "M-s390x"])],
     },
     "C03": {
         "rule": SUB_GEN + "Judged: memmem::find, Finder::find, FinderBuilder(Prefilter::None)::find against the naive leftmost occurrence. "
@@ -170,7 +179,27 @@ PLANS = {
             {"name": "pp-pbt", "cmd": "pp-pbt", "configs": cfgs(["N-auto", "E-neon", "E-wasm"]), "shards": shards(16, 16, 8, 16)},
             {"name": "eq-exh", "cmd": "eq-exh", "configs": cfgs(["N-auto"]), "shards": shards(8, 16)},
             {"name": "eq-pbt", "cmd": "eq-pbt", "configs": cfgs(["N-auto"]), "shards": shards(4, 8), "args": ["--scale", "4"]},
+            miri_stage("BISPE", quick=60, thorough=6000),
         ],
+    },
+    "C09": {
+        "rule": "One natively generated case file (byte search, byte iterators with generated next/next_back/count call patterns, substring search incl. "
+                "every building block and complete iterator sequences, packed pair with explicit offsets on both sides of min_haystack_len, is_equal/"
+                "is_prefix/is_suffix) is executed by `mvexec` built as: native at three forced CPU levels (AVX2 / SSE2 only / neither), --no-default-features, "
+                "alloc only, -C target-feature=+avx2, plain release (no debug assertions), emulated NEON / simd128 / no-SIMD wiring, and interpreted by Miri "
+                "for x86_64 (SSE2), x86_64+avx2, aarch64 (real NEON intrinsics), i686 and big-endian s390x (SWAR fallback). The judge requires every observation "
+                "to equal the naive oracle and to be record-for-record equal across configurations. In addition the in-process generators of C01-C04/C07/C08 "
+                "run on the native levels and emulated back ends. Non-trivial: a case executed in >= 2 configurations with a match (haystack >= 16 bytes).",
+        "stages": [
+            {"name": "casefile", "kind": "casefile", "configs": cfgs(NATIVE + ["X-nostd", "X-alloc", "X-avx2ct", "X-plain"] + EMU + ["M-x86", "M-avx2", "M-a64", "M-i686", "M-s390x"]),
+             "count": {"quick": 120000, "thorough": 3000000}, "miri_count": {"quick": 60, "thorough": 4000}, "miri_per_shard": 30, "fast_shards": 8},
+            {"name": "bytes-pbt", "cmd": "bytes-pbt", "configs": cfgs(NATIVE + EMU), "shards": shards(4, 16, 2, 8)},
+            {"name": "bytes-exh", "cmd": "bytes-exh", "configs": cfgs(NATIVE + EMU), "shards": shards(16, 16, 8, 16)},
+            {"name": "iter-pbt", "cmd": "iter-pbt", "configs": cfgs(NATIVE + EMU), "shards": shards(4, 8, 2, 4)},
+            {"name": "sub-pbt", "cmd": "sub-pbt", "configs": cfgs(NATIVE + EMU), "shards": shards(8, 16, 4, 8)},
+            {"name": "sub-short", "cmd": "sub-short", "configs": cfgs(NATIVE + EMU), "shards": shards(2, 8, 2, 4)},
+        ],
+        "assumptions": DEFAULT_ASSUMPTIONS + ["Miri's implementation of the x86/aarch64 vendor intrinsics is faithful", "compile-time -sse2 cannot be built for this target: 'CPU without SSE2' exists only as the forced level"],
     },
     "C10": {
         "rule": SUB_GEN + "Each generated (needle, haystack) is searched by finders built with Prefilter::None and Prefilter::Auto x 8 rankers (default, constant 0, "
@@ -225,6 +254,8 @@ PLANS = {
                 "Non-trivial: >= 2 threads whose first operation is the same dispatched routine.",
         "stages": [
             {"name": "threads", "cmd": "threads", "configs": cfgs(NATIVE), "shards": shards(16, 16), "needs_mvexec": True, "args": ["--scale", "16"]},
+            {"name": "miri-schedules", "kind": "miri-threads", "configs": cfgs(["N-auto", "M-x86", "M-avx2"]),
+             "programs": {"quick": 8, "thorough": 100}, "seeds": {"quick": 3, "thorough": 25}},
         ],
         "assumptions": DEFAULT_ASSUMPTIONS + ["native interleavings are whatever the OS scheduler produces; only the Miri stage owns its schedule; nothing is exhaustive over schedules"],
     },
@@ -236,6 +267,7 @@ PLANS = {
                 "Non-trivial: >= 3 searches over >= 3 haystacks on one finder, or a clone/into_owned taken from a partially consumed iterator.",
         "stages": [
             {"name": "history", "cmd": "history", "configs": cfgs(NATIVE + EMU), "shards": shards(16, 16, 8, 8), "args": ["--scale", "6"]},
+            miri_stage("H", quick=40, thorough=2000, targets=["M-x86"]),
         ],
     },
     "C17": {
